@@ -153,6 +153,16 @@ func NewSys(plan *Plan) *Sys {
 	k := NewKernel(&plan.Sched)
 	s := &Sys{K: k, Eff: &Effects{}, Plan: plan, Devs: map[string]*Device{}, connUp: map[string]bool{}}
 	s.RT = NewRuntime(k, s.Eff)
+	if la := plan.Knobs.LateAck; len(la) > 0 {
+		s.RT.LateAck = func(prim, op string) bool {
+			for _, pre := range la {
+				if strings.HasPrefix(prim+"/"+op, pre) {
+					return true
+				}
+			}
+			return false
+		}
+	}
 	s.Topo = NewTopo(k, s.Eff)
 	s.Topo.AddNode(ctlutils.GetOnosConfigID())
 	s.Plugin = NewPlugin(k, ModelName, ModelVersion)
